@@ -207,6 +207,9 @@ class Verdict:
         bits = parts[vi + 1].split()[1]
         self.ops = {op: b == "1" for op, b in zip(BASE_OPS, bits)}
         self.well_kinded = self.kind_ok and self.lookup is None
+        # False: a storage order over something not indexed by one natural number -- outside the stated kinds without
+        # violating a stated one; the property claims nothing (Covfie.Kinds.stated)
+        self.stated = parts[vi + 2].split()[1] == "1" if len(parts) > vi + 2 else True
 
     def why(self):
         return self.err or self.lookup or ("viewTooLarge" if not self.view_fits else None)
